@@ -42,7 +42,7 @@ def instances(tier):
     return out
 
 
-REAL_BEH = ["plain", "remove_later", "add_alarm", "exit", "error", "remove_watch", "remove_idle"]
+REAL_BEH = ["plain", "remove_later", "add_alarm", "exit", "error", "remove_watch", "remove_idle", "rewatch"]
 REAL_WBEH = ["plain", "remove_self", "exit", "error"]
 
 
@@ -68,19 +68,23 @@ def h_real(I, loop, full):
         pre_remove, wbeh = I.choice("variant", [(None, "plain"), (1, "remove_self"), (None, "error"), (2, "exit")])
     el, close = make_loop(urwid, loop)
     rfd, wfd = os.pipe()
+    rfd2, wfd2 = os.pipe()
+    rfd3, wfd3 = os.pipe()
     log = []
     due, handles, removal = {}, {}, []
     order = sorted(range(3), key=lambda i: D[perm[i]])   # alarm ids by due time
     alive = [i for i in order if i != pre_remove]
     first = alive[0]
     writer = alive[1] if len(alive) > 1 else alive[0]
-    st = {"watch": None, "idle": None, "watch_removed_at": None, "idle_removed_at": None, "written_at": None, "extra": None}
+    st = {"watch": None, "watch2": None, "watch3": None, "rewatch": None, "idle": None, "watch_removed_at": None, "idle_removed_at": None, "written_at": None, "extra": None}
 
     def mk_alarm(i):
         def cb():
             log.append(("alarm", i, time.time()))
             if i == writer:
                 os.write(wfd, b"x")
+                os.write(wfd2, b"x")
+                os.write(wfd3, b"x")
                 st["written_at"] = len(log)
             if i == first:
                 if beh == "remove_later":
@@ -99,6 +103,22 @@ def h_real(I, loop, full):
                     st["watch_removed_at"] = (el.remove_watch_file(st["watch"]), el.remove_watch_file(st["watch"]), len(log))
                 elif beh == "remove_idle":
                     st["idle_removed_at"] = (el.remove_enter_idle(st["idle"]), el.remove_enter_idle(st["idle"]), len(log))
+                elif beh == "rewatch":
+                    # remove the older of two watches, add a third one, then remove the second: handles must not be confused
+                    r1 = el.remove_watch_file(st["watch"])
+                    st["watch3"] = el.watch_file(rfd3, mk_watch_n(3, rfd3))
+                    r2 = el.remove_watch_file(st["watch2"])
+                    r2b = el.remove_watch_file(st["watch2"])
+                    st["rewatch"] = (r1, r2, r2b, len(log))
+        return cb
+
+    def mk_watch_n(n, fd):
+        def cb():
+            try:
+                os.read(fd, 1)
+            except OSError:
+                pass
+            log.append(("watch%d" % n, time.time()))
         return cb
 
     def watch_cb():
@@ -132,6 +152,7 @@ def h_real(I, loop, full):
         if pre_remove is not None:
             removal.append((pre_remove, el.remove_alarm(handles[pre_remove]), el.remove_alarm(handles[pre_remove]), 0))
         st["watch"] = el.watch_file(rfd, watch_cb)
+        st["watch2"] = el.watch_file(rfd2, mk_watch_n(2, rfd2))
         st["idle"] = el.enter_idle(idle_cb)
         try:
             with contextlib.redirect_stdout(io.StringIO()):
@@ -140,7 +161,7 @@ def h_real(I, loop, full):
         except ValueError as e:
             raised.append(e)
     finally:
-        for fd in (rfd, wfd):
+        for fd in (rfd, wfd, rfd2, wfd2, rfd3, wfd3):
             try:
                 os.close(fd)
             except OSError:
@@ -156,7 +177,7 @@ def h_real(I, loop, full):
     I.check("alarms_in_due_order", all(due[ids[a]] <= due[ids[a + 1]] + TOL for a in range(len(ids) - 1)), info=ids)
     stops_at_first = beh in ("exit", "error")
     watch_stops = wbeh in ("exit", "error")
-    expected_error = (beh == "error") or (wbeh == "error" and not stops_at_first and beh != "remove_watch")
+    expected_error = (beh == "error") or (wbeh == "error" and not stops_at_first and beh not in ("remove_watch", "rewatch"))
     for j, r1, r2, idx in removal:
         I.check("removal_reports_success", r1 is True)
         I.check("second_removal_reports_failure", r2 is False)
@@ -164,24 +185,34 @@ def h_real(I, loop, full):
     if not stops_at_first:
         removed = {j for j, *_ in removal}
         must_run = [i for i in alive if i not in removed]
-        if not (watch_stops and beh != "remove_watch"):
+        if not (watch_stops and beh not in ("remove_watch", "rewatch")):
             I.check("every_pending_alarm_ran", all(i in ids for i in must_run) and (beh != "add_alarm" or 9 in ids), info=ids)
     else:
         I.check("loop_stops_at_the_raising_callback", ids == [first] and not any(e[0] == "end" for e in log), info=ids)
-    if st["watch_removed_at"] is not None:
+    if st.get("rewatch") is not None:
+        pass
+    elif st["watch_removed_at"] is not None:
         r1, r2, idx = st["watch_removed_at"]
         I.check("watch_removal_reports_success_then_failure", r1 is True and r2 is False)
         I.check("watch_never_runs_after_removal", all(e[0] != "watch" for e in log[idx:]))
     elif st["written_at"] is not None and not stops_at_first:
         I.check("readable_watch_runs", any(e[0] == "watch" for e in log[st["written_at"]:]))
-    I.check("watch_not_before_readable", all(e[0] != "watch" for e in log[: st["written_at"] or len(log)]))
+    if st.get("rewatch") is not None:
+        r1, r2, r2b, idx = st["rewatch"]
+        I.check("rewatch_removals_report_success_then_failure", r1 is True and r2 is True and r2b is False)
+        I.check("removed_watches_never_run", all(e[0] not in ("watch", "watch2") for e in log[idx:]), info=[e[0] for e in log[idx:]])
+        if st["written_at"] is not None:
+            I.check("watch_added_from_a_callback_runs", any(e[0] == "watch3" for e in log[st["written_at"]:]), info=[e[0] for e in log])
+    elif st["written_at"] is not None and not stops_at_first and not (watch_stops and beh not in ("remove_watch", "rewatch")):
+        I.check("second_watch_runs", any(e[0] == "watch2" for e in log[st["written_at"]:]))
+    I.check("watch_not_before_readable", all(not e[0].startswith("watch") for e in log[: st["written_at"] or len(log)]))
     if st["idle_removed_at"] is not None:
         r1, r2, idx = st["idle_removed_at"]
         I.check("idle_removal_reports_success_then_failure", r1 is True and r2 is False)
         I.check("removed_idle_not_called_again", all(e[0] != "idle" for e in log[idx:]))
     else:
         # between two callbacks that are >= 15 ms apart the loop went quiescent: the idle callbacks ran in between
-        evs = [(n, e) for n, e in enumerate(log) if e[0] in ("alarm", "watch", "end")]
+        evs = [(n, e) for n, e in enumerate(log) if e[0] in ("alarm", "watch", "watch2", "watch3", "end")]
         ok = True
         for (n1, e1), (n2, e2) in zip(evs, evs[1:]):
             if e2[-1] - e1[-1] >= 0.015 and not any(x[0] == "idle" for x in log[n1 + 1: n2]):
